@@ -121,8 +121,13 @@ CLAIMS['C03'] = dict(
     design_ref='DESIGN.md 9.6',
     note='ARMv6-M assembly bodies not analysable here; trusted base clang integrated assembler + llvm-objdump')
 
+CLAIMS['C13'] = dict(
+    technique='static sibling/agreement analysis: the message-binding term of signer and verifier, the shape of the verification equation (two pairings, one negation, comparison with the public value), path enumeration of the signer fill loop, forwarding shape',
+    category='other',
+    text='Partial claim (structural necessary conditions only): signer and verifier bind the message through the same term, the verifier compares the product of exactly two pairings with the public pairing value, the fill loop contributes exactly on index matches, sign/verify are precompute + precomputed forms. Whether verification accepts exactly the signed message/list is the value of a pairing equation and is NOT decided.',
+    design_ref='DESIGN.md 9.7', note='no claim about soundness or unforgeability')
+
 NA = {
- 'C13': 'acceptance/rejection is the value of a pairing-product equation; no structural clause beyond the sign/verify delegation decided under C14',
 }
 
 def main():
